@@ -323,6 +323,11 @@ func splitCompositePre(pre string) (string, string) {
 // GenCase draws one case of a row and executes all its cells.
 func GenCase(t *rapid.T, c *verifkit.Case, ex Exec, row Row) {
 	ti := row.Type
+	if ex.Name() != "store" {
+		// the driver gives shard i of every target the same seed: consume a few bits first so that the FSM target
+		// does not walk through exactly the histories of the Store target
+		rapid.Uint64().Draw(t, "decorrelate-"+ex.Name())
+	}
 	h := &Header{C10: "row", Exec: ex.Name(), Type: ti.Name, Pre: row.Pre, Ent: drawEntity(t, ti.EK)}
 	c.Op(h)
 	g := &gen{t: t, c: c, w: vs.NewWorld(state.NewStateStore(nil))}
